@@ -7,15 +7,23 @@ import PEval.Gen.KCell
 matching class: atoms `same_frame`, `thr[gt].none` (what `get_label_threshold` answered for the label it was called
 with: the threshold term is NAMED after that label, so a lookup with the estimate's label shows as another atom), the
 order atoms of the radius gate and `matchable`. Result: NaN, or (score, label flag).
+
+Pinned / open. C01: "only pairs objects expressed in the same coordinate/camera frame, and, when a maximum matchable radius
+is configured for the ground truth's label, only pairs objects closer than that radius". A radius is a threshold of the
+mode's scale; the text does not say what happens for an IoU radius outside [0, 1] (today the assertion of
+`is_better_than` fires). The per-run obligation is stated for the valuations avoiding `forbIoU`; in-quantifier predicate:
+`thrOk (toAP c.mode) rd` (no radius, or one on the scale - `valCell_consistent`). Frame test, lookup by the GROUND TRUTH's
+label, direction and strictness of the gate, and the label flag stay pinned; the distance classes for every radius.
 -/
 namespace PEval.KernelCell
 open PEval PEval.DT PEval.MatchKernels PEval.Matching
 
 /-- THE per-run obligation -/
-theorem cell_table_check : tableOk [] Gen.K.cell.tree cellTree = true := by decide +kernel
+theorem cell_table_check : tableOk forbIoU Gen.K.cell.tree cellTree = true := by decide +kernel
 
-theorem cell_code_table_eq_model : ∀ t, Gen.K.cell.tree = some t → ∀ v : Val, eval t v = cellAtoms v :=
-  fun t ht v => tableOk_sound cell_table_check t ht v (consistent_nil v)
+theorem cell_code_table_eq_model : ∀ t, Gen.K.cell.tree = some t →
+    ∀ v : Val, consistent forbIoU v = true → eval t v = cellAtoms v :=
+  fun t ht v hv => tableOk_sound cell_table_check t ht v hv
 
 /-- the bridge: the model's `cell` is the skeleton applied to the atoms of the input (all inputs whose threshold lookup
 does not raise) -/
@@ -25,25 +33,48 @@ theorem cell_eq_skeleton (c : Cfg) (e g : Obj) (v : Rat) (rd : Option Rat)
 
 theorem cell_code_table_eq_cell :
     ∀ t, Gen.K.cell.tree = some t → ∀ (c : Cfg) (e g : Obj) (v : Rat) (rd : Option Rat),
-      labelThreshold c.targets c.thresholds g.label = .ok rd → eval t (valCell c e g v rd) = ofCell (cell c e g v) := by
-  intro t ht c e g v rd hr
-  rw [cell_code_table_eq_model t ht]; exact cell_bridge c e g v rd hr
+      labelThreshold c.targets c.thresholds g.label = .ok rd → thrOk (toAP c.mode) rd →
+      eval t (valCell c e g v rd) = ofCell (cell c e g v) := by
+  intro t ht c e g v rd hr hv
+  rw [cell_code_table_eq_model t ht _ (valCell_consistent c e g v rd hv)]; exact cell_bridge c e g v rd hr
 
 /-- C01 for the code's table: a cell holds a score exactly when the frames agree and the value beats the radius of the
 GROUND TRUTH's label (or that label has none); a value equal to the radius gives NaN -/
 theorem table_cell_nan_on_radius {t : DTree} (ht : Gen.K.cell.tree = some t) (c : Cfg) (e g : Obj) (v : Rat)
     (hr : labelThreshold c.targets c.thresholds g.label = .ok (some v)) (hm : c.mode.maximize = false) :
     eval t (valCell c e g v (some v)) = .other cellNan := by
-  rw [cell_code_table_eq_cell t ht c e g v (some v) hr]
+  have hd : (toAP c.mode).isDistance = true := by
+    cases hc : c.mode <;> simp [hc, Mode.maximize] at hm <;> rfl
+  rw [cell_code_table_eq_cell t ht c e g v (some v) hr (thrOk_distance hd _)]
   unfold cell
   rw [hr]
   cases hf : (e.frame == g.frame) <;>
     simp [ofCell, Cell.nan, isBetterThan, hm, better, bind, Except.bind, pure, Except.pure]
 
+/-- the same for an IoU class and a radius in [0, 1] -/
+theorem table_cell_nan_on_radius_iou {t : DTree} (ht : Gen.K.cell.tree = some t) (c : Cfg) (e g : Obj) (v : Rat)
+    (hr : labelThreshold c.targets c.thresholds g.label = .ok (some v)) (hv : AP.thrValid (toAP c.mode) v = true) :
+    eval t (valCell c e g v (some v)) = .other cellNan := by
+  rw [cell_code_table_eq_cell t ht c e g v (some v) hr (thrOk_some hv)]
+  have hb : isBetterThan c.mode v v = .ok false := by
+    rw [matching_isBetterThan, isBetterThan_eq, hv]
+    simp [optBetter, AP.isBetter]
+  unfold cell
+  rw [hr]
+  cases hf : (e.frame == g.frame) <;>
+    simp [ofCell, Cell.nan, hb, bind, Except.bind, pure, Except.pure]
+
 theorem table_cell_other_frame {t : DTree} (ht : Gen.K.cell.tree = some t) (c : Cfg) (e g : Obj) (v : Rat) (rd : Option Rat)
-    (hr : labelThreshold c.targets c.thresholds g.label = .ok rd) (hf : (e.frame == g.frame) = false) :
+    (hr : labelThreshold c.targets c.thresholds g.label = .ok rd) (hv : thrOk (toAP c.mode) rd)
+    (hf : (e.frame == g.frame) = false) :
     eval t (valCell c e g v rd) = .other cellNan := by
-  rw [cell_code_table_eq_cell t ht c e g v rd hr]
+  rw [cell_code_table_eq_cell t ht c e g v rd hr hv]
   simp [cell, hf, ofCell, Cell.nan, pure, Except.pure]
+
+/-- non-vacuity of the in-quantifier predicate: no radius; a distance radius of any size; an IoU radius in [0, 1] -/
+example : thrOk .iou3d none ∧ thrOk .centerDistance (some 40) ∧ thrOk .iou2d (some (1/2)) ∧ ¬ thrOk .iou2d (some 2) := by
+  refine ⟨thrOk_none _, thrOk_distance rfl _, thrOk_some (by decide +kernel), ?_⟩
+  intro h
+  exact absurd (h 2 rfl) (by decide +kernel)
 
 end PEval.KernelCell
